@@ -20,6 +20,11 @@ package pki
 //   scen page <limit> => <n listed by pages>/<n revoked>
 
 import (
+	"crypto/ecdsa"
+	"crypto/elliptic"
+	"crypto/rand"
+	"crypto/x509/pkix"
+	"encoding/pem"
 	"context"
 	"crypto"
 	"crypto/x509"
@@ -277,6 +282,55 @@ func c16sEquiv(t *testing.T, out *vh.Out) {
 	out.Op(res+viol, "scen", "equiv")
 }
 
+// c16sIssuerRevokeImported: the revoked issuer's certificate is NOT stored under certs/<serial> (the mount did not sign it
+// itself, or the certificate store was tidied) — `key`: the issuer has its key in the mount; `nokey`: only its
+// certificate was imported. issuer/<ref>/revoke is the only way to revoke such an issuer; once it answers success every
+// channel must report it. Op line: scen issrevimp <key|nokey> => ok|cert:…|ocsp:…|crl:…
+func c16sIssuerRevokeImported(t *testing.T, out *vh.Out) {
+	for _, how := range []string{"key", "nokey"} {
+		e := c16sNew(t)
+		var root, inter *x509.Certificate
+		var serial, intID string
+		if how == "key" {
+			root, inter, _, serial, intID = e.rootAndIntermediate(true)
+		} else {
+			resp := e.must("root/generate/internal", map[string]any{"common_name": "root example.com", "key_type": "ec", "issuer_name": "root", "ttl": "87600h"})
+			root = parseCert(t, resp.Data["certificate"].(string))
+			k, err := ecdsa.GenerateKey(elliptic.P256(), rand.Reader)
+			if err != nil {
+				t.Fatal(err)
+			}
+			der, err := x509.CreateCertificateRequest(rand.Reader, &x509.CertificateRequest{Subject: pkix.Name{CommonName: "int example.com"}}, k)
+			if err != nil {
+				t.Fatal(err)
+			}
+			csr := string(pem.EncodeToMemory(&pem.Block{Type: "CERTIFICATE REQUEST", Bytes: der}))
+			resp = e.must("issuer/root/sign-intermediate", map[string]any{"csr": csr, "common_name": "int example.com", "ttl": "43800h"})
+			intPEM := resp.Data["certificate"].(string)
+			inter = parseCert(t, intPEM)
+			serial = resp.Data["serial_number"].(string)
+			resp = e.must("issuers/import/cert", map[string]any{"pem_bundle": intPEM})
+			ids, _ := resp.Data["imported_issuers"].([]string)
+			if len(ids) != 1 {
+				t.Fatalf("import of the key-less issuer: %v", resp.Data)
+			}
+			intID = ids[0]
+		}
+		// the certificate is not (no longer) in the mount's certificate store
+		if err := e.s.Delete(context.Background(), "certs/"+strings.ReplaceAll(strings.ToLower(serial), ":", "-")); err != nil {
+			t.Fatal(err)
+		}
+		out.Reset()
+		_, first := e.write("issuer/"+intID+"/revoke", map[string]any{})
+		res := fmt.Sprintf("%s|%s|%s|%s", first, e.certStatus(serial), e.ocspStatus(inter, root), e.crlHas("issuer/root/crl/der", serial, root))
+		viol := ""
+		if first == "ok" && res != "ok|cert:revoked|ocsp:revoked|crl:listed" {
+			viol = "!VIOL:the revocation of an issuer whose certificate is not in the mount's certificate store (" + how + ") was reported successful, but a report channel does not show it revoked: " + res + "#imported-issuer-revoke-not-reported"
+		}
+		out.Op(res+viol, "scen", "issrevimp", how)
+	}
+}
+
 func c16sImportedIssuer(t *testing.T, out *vh.Out) {
 	e := c16sNew(t)
 	root, _, intPEM, serial, _ := e.rootAndIntermediate(false)
@@ -368,5 +422,6 @@ func TestVerifC16Scenarios(t *testing.T) {
 	c16sConfigCRL(t, out)
 	c16sEquiv(t, out)
 	c16sImportedIssuer(t, out)
+	c16sIssuerRevokeImported(t, out)
 	c16sPagination(t, out)
 }
